@@ -88,3 +88,67 @@ def section_decl_ir(rep, rng, header_bytes, n):
                      rule='version-2 headers (whole, truncated, one byte flipped) and bare thread entries (incl. names without NUL / '
                           'not UTF-8): the construct declarations GENERATED from the source and run by PyIRCn.Con.parse must give the '
                           'values, the exception kind and the stream position of the real kd_header_v2 / kd_threadmap objects')
+
+
+def impl_tm3(data):
+    from . import impl  # noqa: F401
+    from pykdebugparser import kd_buf_parser as K
+    rd = io.BytesIO(data)
+    try:
+        h = K.kd_v3_threadmap.parse_stream(rd)
+    except Exception as e:
+        return 'err %s pos=%d' % (core.err_name(e), rd.tell())
+    return 'ok tm=%s pos=%d' % (','.join(_entry(t) for t in h.threadmap) if len(h.threadmap) else '-', rd.tell())
+
+
+def impl_ad(data):
+    from . import impl  # noqa: F401
+    from pykdebugparser import kd_buf_parser as K
+    rd = io.BytesIO(data)
+    try:
+        bs = K.kd_v3_additional_data.parse_stream(rd)
+    except Exception as e:
+        return 'err %s pos=%d' % (core.err_name(e), rd.tell())
+    return 'ok %s pos=%d' % (','.join('%s:%s' % (bytes(b.tag).hex() or '-', bytes(b.data).hex() or '-') for b in bs) if len(bs) else '-',
+                             rd.tell())
+
+
+def _gen_entry(rng):
+    name = rng.choice([b'a', b'launchd', 'é'.encode(), b'', bytes([0xff]), b'A' * 20, b'x' * 19])
+    field = (name + b'\0' + bytes(rng.randrange(256) for _ in range(20)))[:20]
+    return rng.randrange(1 << 64).to_bytes(8, 'little') + rng.randrange(1 << 32).to_bytes(4, 'little') + field
+
+
+def section_decl_ir_v3(rep, rng, n):
+    """`decl-ir` (C03): the GENERATED kd_v3_threadmap / kd_v3_additional_data, run by Con.parse, against the real construct objects."""
+    cases = []
+    for i in range(n):
+        if i % 2:
+            body = b''.join(_gen_entry(rng) for _ in range(rng.choice([0, 1, 2, 3, 5]))) + bytes(rng.randrange(256) for _ in range(rng.choice([0, 0, 5, 31])))
+            ln = len(body) + rng.choice([0, 0, 0, -1, 1, 40])
+            data = max(ln, 0).to_bytes(8, 'little') + body + bytes(rng.randrange(256) for _ in range(rng.choice([0, 3, 64])))
+            if rng.random() < 0.15:
+                data = data[:rng.randrange(len(data) + 1)]
+            cases.append({'op': 'cntm3', 'data': data.hex()})
+        else:
+            data = b''
+            for _ in range(rng.choice([0, 1, 2, 3, 6])):
+                pay = bytes(rng.randrange(256) for _ in range(rng.choice([0, 1, 5, 8, 13, 16])))
+                data += bytes(rng.randrange(256) for _ in range(8)) + len(pay).to_bytes(8, 'little') + pay
+                if rng.random() < 0.8:
+                    data += bytes(rng.randrange(256) for _ in range(-len(pay) % 8))      # alignment (any bytes)
+            k = rng.randrange(5)
+            if k == 0 and data:
+                data = data[:rng.randrange(len(data))]
+            elif k == 1:
+                data += bytes(rng.randrange(256) for _ in range(rng.choice([1, 7, 8, 15, 17])))
+            cases.append({'op': 'cnad', 'data': data.hex()})
+    core.run_section(rep, 'decl-ir', cases,
+                     lambda c: '%s %s' % (c['op'], c['data'] or '-'),
+                     lambda c: (impl_tm3 if c['op'] == 'cntm3' else impl_ad)(bytes.fromhex(c['data'])),
+                     nontrivial_fn=lambda c, got: got.startswith('ok') and not got.startswith('ok -') and not got.startswith('ok tm=-'),
+                     kind_fn=lambda c, got: c['op'] + '-' + ('err' if got.startswith('err') else 'empty' if got.split(' ')[1] in ('-', 'tm=-') else 'some'),
+                     rule='thread-map payloads (entries incl. names without NUL / not UTF-8, trailing bytes, wrong length prefix, cut) and '
+                          'additional-data block streams (aligned and unaligned blocks, stray tails, cut): the construct declarations '
+                          'GENERATED from the source and run by PyIRCn.Con.parse must give the values, the exception kind and the stream '
+                          'position of the real kd_v3_threadmap / kd_v3_additional_data objects')
